@@ -434,6 +434,9 @@ func (g *cgen) attrVal() (string, string) {
 
 // leaf: a constraint without Logical. kind: "" any, "pn" permanode flavoured, "fd" file or dir only.
 func (g *cgen) leaf(depth int, kind string, inLoop bool) *Cons {
+	if kind != "fd" && g.r.Chance(18) {
+		return g.multiField(depth, kind)
+	}
 	c := &Cons{}
 	k := g.r.Intn(12)
 	if kind == "pn" {
@@ -1096,4 +1099,76 @@ func Churn(r *hk.Rand, b *B, pn string, hit func(string)) {
 			hit("churn-claim-in-date-order")
 		}
 	}
+}
+
+// multiField: ONE constraint struct with three to five non-zero fields (all of them must match):
+// camliType / anyCamliType / anything / blobSize / blobRefPrefix around a permanode or file
+// constraint or on their own, now and then beside a Logical. Which of the fields decides is left to
+// chance: each is drawn so that it holds for some blobs of the world and not for others.
+func (g *cgen) multiField(depth int, kind string) *Cons {
+	c := &Cons{}
+	var sizes []int64
+	for _, b := range g.w.Blobs {
+		sizes = append(sizes, int64(b.Size))
+	}
+	n := 0
+	flavour := g.r.Intn(4)
+	if kind == "pn" {
+		flavour = 0
+	}
+	switch flavour {
+	case 0:
+		c.Pn = g.perm(depth)
+		n++
+		if g.r.Chance(70) {
+			c.Camli = "permanode"
+			n++
+		}
+	case 1:
+		c.File = g.file(depth)
+		n++
+		if g.r.Chance(70) {
+			c.Camli = "file"
+			n++
+		}
+	case 2:
+		c.Camli = g.pick([]string{"permanode", "file", "claim", "directory"})
+		n++
+	case 3:
+		if depth > 0 {
+			op := g.pick([]string{"and", "or", "xor", "not"})
+			c.Op, c.A = op, g.cons(depth-1, "", false)
+			if op != "not" {
+				c.B = g.cons(depth-1, "", false)
+			}
+			n++
+		}
+	}
+	// fill up to 3..5 fields
+	want := 3 + g.r.Intn(3)
+	for tries := 0; n < want && tries < 12; tries++ {
+		switch g.r.Intn(4) {
+		case 0:
+			if c.BlobSize == nil {
+				c.BlobSize = g.intC(sizes)
+				n++
+			}
+		case 1:
+			if c.Prefix == "" {
+				c.Prefix = g.prefix()
+				n++
+			}
+		case 2:
+			if !c.Anything {
+				c.Anything = true
+				n++
+			}
+		case 3:
+			if !c.AnyCamli {
+				c.AnyCamli = true
+				n++
+			}
+		}
+	}
+	return c
 }
